@@ -430,7 +430,7 @@ def transform(src_text, kind, final=None):
 
 KINDS = ['reformat', 'invert_if', 'demorgan', 'swap_compare', 'nest_and', 'rename_locals', 'alias_final', 'flag_local', 'pop_drop', 'guard_return', 'else_dedent',
          'ifexp_split', 'aug_assign', 'early_continue', 'extract_test', 'tuple_loop']
-# not part of the default run: see DESIGN §10.9 (a known limit — 8 of the 20 files it changes still raise alarms; run with --kinds split_if)
+# not part of the default run: see DESIGN §10.9 (a known limit — 5 of the 20 files it changes still raise alarms; run with --kinds split_if)
 EXTRA_KINDS = ['split_if']
 
 
